@@ -137,7 +137,7 @@ class ProxNewton(BaseSolver):
                 break
 
             # build working set
-            gsupp_size = penalty.generalized_support(w).sum()
+            gsupp_size = penalty.generalized_support(w[:n_features]).sum()
             ws_size = max(min(self.p0, n_features),
                           min(n_features, 2 * gsupp_size))
             # similar to np.argsort()[-ws_size:] but without sorting
@@ -177,7 +177,7 @@ class ProxNewton(BaseSolver):
                 stop_crit_in = np.max(opt_in)
 
                 if max(self.verbose-1, 0):
-                    p_obj = datafit.value(y, w, Xw) + penalty.value(w)
+                    p_obj = datafit.value(y, w, Xw) + penalty.value(w[:n_features])
                     print(
                         "PN iteration {}: {:.10f}, ".format(pn_iter+1, p_obj) +
                         "stopping crit in: {:.2e}".format(stop_crit_in)
@@ -188,7 +188,7 @@ class ProxNewton(BaseSolver):
                         print("Early exit")
                     break
 
-            p_obj = datafit.value(y, w, Xw) + penalty.value(w)
+            p_obj = datafit.value(y, w, Xw) + penalty.value(w[:n_features])
             p_objs_out.append(p_obj)
         else:
             warnings.warn(
